@@ -41,6 +41,18 @@ pub fn corpus() -> Vec<(String, Case)> {
             },
         ));
     }
+    // requests on either side of midnight UTC (another calendar date in the credential scope and in the key the provider
+    // is asked for), each valid under its own server clock
+    for (name, h, mi, day) in [("midnight:before", 23u32, 58u32, 30u32), ("midnight:after", 0, 1, 31)] {
+        for carrier in [Carrier::Header, Carrier::Query] {
+            let mut p = e2e::base_plan(carrier);
+            p.instant = refmodel::Instant::from_civil(2015, 8, day, h, mi, 0, 0);
+            p.date_text = p.instant.compact();
+            e2e::rekey(&mut p, e2e::SECRET, "us-east-1", "service");
+            let cfg = Cfg::basic(refmodel::Instant::new(p.instant.secs + 30, 0));
+            out.push((format!("{}{}", name, if carrier == Carrier::Query { ":query" } else { "" }), Case { wire: WireReq::from_wire(&build(&p).wire), cfg, prov: ProvSpec::standard() }));
+        }
+    }
     // the same library state seen under other server clocks and configurations: requests at the very edges of the
     // window of one clock, and valid requests validated under clocks 10 minutes apart (a validation must not
     // learn anything about "the time" or "the configuration" from another one)
@@ -293,6 +305,8 @@ pub fn thread_jobs(thorough: bool) -> Vec<(Vec<&'static str>, u32, &'static str)
         (vec!["Header:folded-form", "header:bad-path"], pair_bound, "2 threads"),
         (vec!["query:valid", "header:expired"], pair_bound, "2 threads"),
         (vec!["Query:s3-token", "header:scope"], pair_bound, "2 threads"),
+        (vec!["midnight:before", "midnight:after"], pair_bound, "2 threads"),
+        (vec!["midnight:after:query", "midnight:before"], pair_bound, "2 threads"),
         (vec!["header:valid", "query:valid", "header:wrong-signature"], if thorough { 3 } else { 2 }, "3 threads"),
     ];
     // the same with every heap allocation as a further scheduling point (a preemption can then land between
@@ -391,6 +405,25 @@ pub fn threads_child(args: &[String]) -> i32 {
             (sched::run_schedule(idxs.len(), body.clone(), &sch, 400), sched::run_schedule(idxs.len(), body.clone(), &sch, 400))
         };
         if a.outcomes != b.outcomes {
+            if !forked {
+                // the failing schedule left something behind in this process, so a second run of it starts from
+                // another state: explore again with every execution in its own forked process
+                println!("NOTE: a failing schedule replayed in this process gave another outcome; re-exploring with one process per execution");
+                let me = std::env::current_exe().unwrap();
+                let out = std::process::Command::new(me)
+                    .arg("--c18-threads")
+                    .arg(j.to_string())
+                    .arg(if thorough { "thorough" } else { "quick" })
+                    .arg("forked")
+                    .output();
+                return match out {
+                    Ok(o) => {
+                        print!("{}", String::from_utf8_lossy(&o.stdout));
+                        o.status.code().unwrap_or(2)
+                    }
+                    Err(_) => 2,
+                };
+            }
             println!("MACHINERY-ERROR: replaying a failing schedule twice gave different outcomes");
             return 2;
         }
